@@ -112,6 +112,9 @@ func classifyErrUses(v ssa.Value) *errUse {
 				}
 				// local cell (named result or captured variable) or varargs slot
 				switch a := x.Addr.(type) {
+				case *ssa.Global:
+					// a sentinel kept in a package variable: compared with, not lost
+					u.returned = true
 				case *ssa.Alloc:
 					for _, r2 := range *a.Referrers() {
 						if ld, ok := r2.(*ssa.UnOp); ok && ld.Op == token.MUL {
